@@ -171,13 +171,21 @@ fn attr_for(p: &Pieces, mask: u32, with_default: bool) -> TokenStream {
     ts
 }
 
-fn check_derive_space(shim: Shim, feats: Features, masks: &[u32], tier: Tier, label: &str) -> Rep {
+fn check_derive_space(shim: Shim, feats: Features, masks: &[u32], tier: Tier, label: &str, only: Option<(Family, GuardShape)>) -> Rep {
     let mut rep = Rep::new();
     for fam in FAMILIES {
         for g in SHAPES {
+            if let Some((of, og)) = only {
+                if of != fam || og != g {
+                    continue;
+                }
+            }
             let Some(ga) = guard_attr(fam, g) else { continue };
             let (_ty, item) = fam_item(fam);
             for with_default in [false, true] {
+                if only.is_some() && !with_default {
+                    continue;
+                }
                 let parts: Vec<Rep> = masks
                     .par_chunks(128)
                     .map(|chunk| {
@@ -236,13 +244,19 @@ fn c08(tier: Tier) -> Rep {
     // (1) derive-subset space
     let masks: Vec<u32> = match tier {
         Tier::Quick => masks_upto(3),
-        Tier::Thorough => (0u32..(1 << 22)).collect(),
+        Tier::Thorough => masks_upto(5),
     };
-    rep.bounds.insert("derive_subsets".into(), json!(if tier == Tier::Quick { "all subsets of the 22 trait names of size <= 3, per (family, guard shape, default present/absent)" } else { "all 2^22 subsets of the 22 trait names, per (family, guard shape, default present/absent)" }));
-    rep.merge(check_derive_space(Shim::All, Features::ALL, &masks, tier, "features=all"));
+    rep.bounds.insert("derive_subsets".into(), json!(if tier == Tier::Quick { "all subsets of the 22 trait names of size <= 3, per (family, guard shape, default present/absent)" } else { "all subsets of size <= 5 per (family, guard shape, default present/absent) + ALL 2^22 subsets for 5 designated (family, guard shape) pairs" }));
+    rep.merge(check_derive_space(Shim::All, Features::ALL, &masks, tier, "features=all", None));
+    if tier == Tier::Thorough {
+        let all: Vec<u32> = (0u32..(1 << 22)).collect();
+        for pair in [(Family::Int, GuardShape::Std), (Family::Float, GuardShape::StdFinite), (Family::Float, GuardShape::Std), (Family::Str, GuardShape::None), (Family::Any, GuardShape::StdPred)] {
+            rep.merge(check_derive_space(Shim::All, Features::ALL, &all, tier, "features=all, all 2^22 subsets", Some(pair)));
+        }
+    }
     let small = masks_upto(2);
-    rep.merge(check_derive_space(Shim::None, Features::NONE, &small, tier, "features=none"));
-    rep.merge(check_derive_space(Shim::NoStd, Features::NOSTD, &small, tier, "features=serde+arbitrary,no-std"));
+    rep.merge(check_derive_space(Shim::None, Features::NONE, &small, tier, "features=none", None));
+    rep.merge(check_derive_space(Shim::NoStd, Features::NOSTD, &small, tier, "features=serde+arbitrary,no-std", None));
     // (2) literal bounds in every relative position for every numeric type
     let kinds: [(&str, bool); 2] = [("greater", true), ("greater_or_equal", false)];
     let ukinds: [(&str, bool); 2] = [("less", true), ("less_or_equal", false)];
